@@ -5,12 +5,16 @@ import checks_idm
 import checks_copy
 import checks_wrap
 import checks_os
+import checks_conc
 
 CHECKS = {
     "C01": checks_ns.check_c01,
     "C02": checks_ns.check_c02,
     "C04": checks_ns.check_c04,
     "C05": checks_ns.check_c05,
+    "C06": checks_conc.check_c06,
+    "C07": checks_conc.check_c07,
+    "C08": checks_conc.check_c08,
     "C09": checks_wrap.check_c09,
     "C10": checks_wrap.check_c10,
     "C11": checks_wrap.check_c11,
